@@ -693,14 +693,34 @@ def a17_case(col, rng, cidx, jobref):
     outs = {}
     args = [Sym("arg", cidx)]
     ref = S.run_reference(sp, args, plain)
+    # an explicit setup operation first (both flavours the same way): setup(), or executor(targets).setup()
+    pre_op = None
+    if setup and rng.random() < 0.45:
+        pre_op = ("setup", None) if rng.random() < 0.5 else ("executor_setup", [ids[i] for i in rng.sample(range(len(ids)), rng.randint(1, min(3, len(ids))))])
+    pre_seen = {}
     for fl in (False, True):
         sp2 = dict(sp, is_async=fl)
         d, _e, _p = S.build_tawazi(sp2, plain=plain)
-        case = sched.run_case(sp2, args=args, controlled=rng.random() < 0.5, d=d, plain=plain)
+        if pre_op is not None:
+            B.reset_log()
+            if pre_op[0] == "setup":
+                rpre = probes.run_op("setup", (lambda: asyncio.run(d.setup())) if fl else (lambda: d.setup()))
+            else:
+                ex0 = d.executor(target_nodes=pre_op[1])
+                rpre = probes.run_op("executor.setup", (lambda: asyncio.run(ex0.setup())) if fl else (lambda: ex0.setup()))
+            lg0 = B.snapshot()
+            pre_seen[fl] = (rpre[0], sorted(e["node"] for e in lg0 if e["kind"] == "FENTER"), sorted(ids[i] for i in setup if ids[i] in d.results))
+        case = sched.run_case(sp2, args=args, controlled=rng.random() < 0.5, d=d, plain=plain,
+                              pre_values={i: d.results[ids[i]] for i in setup if ids[i] in d.results})
         ent = Counter(e["node"] for e in case["log"] if e["kind"] == "FENTER")
         setup_res = {ids[i]: d.results.get(ids[i], "MISSING") for i in setup}
         outs[fl] = (case["res"], ent, setup_res)
         col.evaluations += 1
+    if pre_op is not None:
+        col.counters["c17_explicit_setup_operations_compared"] += 1
+        if pre_seen.get(False) != pre_seen.get(True):
+            col.violation(pid, "asyncdag_setup_operation_differs_from_dag", dict(
+                operation=pre_op[0], targets=pre_op[1], dag=S.jsonable(pre_seen.get(False)), asyncdag=S.jsonable(pre_seen.get(True)), source=S.render(sp)), rp)
     col.counters["c17_flavour_pairs"] += 1
     (rs, es, ss), (ra, ea, sa) = outs[False], outs[True]
     if rs[0] != ra[0]:
